@@ -7,6 +7,10 @@ CONSTANTS
   MaxDstFrag = 3
   MaxQ = 4
   Ops = {"read", "length", "argv", "arrmsg", "memchr", "memfcn", "memstr", "memtok", "memcpy", "append", "qget"}
+  EmptyBases = {"slice"}
+  ForeignBytes = {0, 34, 97}
+  ArrKinds = {"exact", "shared", "roomy"}
+  MaxFail = 4
 VIEW View
 INVARIANTS TypeOK Refines
 PROPERTIES DesignAgrees Normalised OnceAgrees
